@@ -251,6 +251,12 @@ func (b *Builder) buildNode(ctx *buildContext, n *buildNode) (
 
 	if n.typ == nodeRule && n.rule != nil {
 		log.Printf("BUILD %s", n.name)
+		// Remove the stale outputs first, so that the rule creates them
+		// anew: writing into an existing file keeps its permission bits
+		// and follows a symlink put in its place.
+		for _, out := range n.ruleMeta.outs {
+			os.Remove(b.env.out(out)) // Non-empty directories stay.
+		}
 		if err := n.rule.build(b.env, b.opts); err != nil {
 			return "", errcode.Annotatef(err, "build %s", n.name)
 		}
